@@ -130,3 +130,12 @@ mod tests {
         );
     }
 }
+
+#[cfg(feature = "verif-hooks")]
+pub(crate) fn verif_findnode_log2distance(
+    target: NodeId,
+    peer: NodeId,
+    size: usize,
+) -> Option<Vec<u64>> {
+    findnode_log2distance(target, peer, size)
+}
